@@ -133,6 +133,7 @@ type srvScenario struct {
 	RecvFailKind string // eof | eofdata | closing | other
 	SendFailAt   int    // the n-th Send fails
 	NoUnblock    bool   // Close does not unblock a pending Recv (like channel.Direct)
+	DeadCtxAt    int    `json:",omitempty"` // the n-th base context handed out by ServerOptions.NewContext has already ended (0 = never)
 	Restart      bool   // after WaitStatus, start the same server again and probe it
 }
 
@@ -406,7 +407,20 @@ func runServerScenario(t *testing.T, sc *srvScenario, pickFn func(n int) int, sk
 			}
 		}
 		r.sch.midSend = r.sendPark
-		r.srv = jrpc2.NewServer(srvMux{r}, &jrpc2.ServerOptions{Concurrency: sc.Concurrency, AllowPush: sc.AllowPush, Logger: r.logPark}).Start(r.sch)
+		sopts := &jrpc2.ServerOptions{Concurrency: sc.Concurrency, AllowPush: sc.AllowPush, Logger: r.logPark}
+		if sc.DeadCtxAt > 0 {
+			nctx := 0
+			sopts.NewContext = func() context.Context {
+				nctx++
+				if nctx == sc.DeadCtxAt {
+					dead, cancel := context.WithCancel(context.Background())
+					cancel()
+					return dead
+				}
+				return context.Background()
+			}
+		}
+		r.srv = jrpc2.NewServer(srvMux{r}, sopts).Start(r.sch)
 		nextOp := 0
 		lastSeq := 0
 		reads := 0
